@@ -61,7 +61,7 @@ pub fn generate(seed: u64, tier: Tier) -> Case {
                 let n = rng.below(100);
                 files.push((
                     format!("{stem}.v{n}.pyxis"),
-                    format!("pub type Dotted{n} {{ pub a: u32, pub b: [u8; {}] }}\n", 4 * (n % 3)),
+                    format!("#[align(4)]\npub type Dotted{n} {{ pub a: u32, pub b: [u8; {}] }}\n", 4 * (n % 3)),
                 ));
             }
             let w = World::from_files(ptr, files);
